@@ -480,7 +480,7 @@ PROP = Prop(
           "the resampled scores themselves, >=8 scores per class, >=4 samples). Non-trivial = "
           "nb_samples >= 2."),
     clauses=[
-        Clause("wiring", check, strategy=_cases(), quick=200, thorough=8000, quick_shards=4,
+        Clause("wiring", check, strategy=_cases(), quick=350, thorough=8000, quick_shards=8,
                min_nontrivial=100, doc="rows = metric of j-th sample; CI wiring; identity collapse"),
         Clause("config_sequences", check_sequence, strategy=_seq_cases(), quick=150, thorough=1200,
                quick_shards=2, shards=8, min_nontrivial=50,
